@@ -80,7 +80,7 @@ func c16Big(c *mc.Ctx) {
 		if j.style == 2 {
 			nk = 8
 		}
-		c.Expect(1 + 3*int64(len(c16BigRanges(int32(nk)))))
+		c.Expect(1 + 4*int64(len(c16BigRanges(int32(nk)))))
 	}
 	c.Par(len(jobs), func(ji int) {
 		if c.TooMany() {
@@ -104,12 +104,22 @@ func c16Big(c *mc.Ctx) {
 		n := int32(len(keys))
 		for _, r := range c16BigRanges(n) {
 			m0 := int32(1 << 30)
+			mx := int32(0)
 			for k := r.s; k+1 < r.e; k++ {
 				if want[k] < m0 {
 					m0 = want[k]
 				}
+				if want[k] > mx {
+					mx = want[k]
+				}
 			}
-			for _, m := range []int32{1, 7, 17} {
+			// m = 1, 7, 17 and the FULL depth: counters for every prefix length up to two bits beyond the
+			// deepest first difference of the range (so every slot of the per-bit tally is summed, also the one
+			// that half of all adjacent pairs of a dense list fall into)
+			for mi, m := range []int32{1, 7, 17, mx - m0 + 3} {
+				if mi == 3 && j.style == 2 {
+					m = 40 // long stems: the deepest difference is a few bits behind the stem
+				}
 				cnt := c16CountsFromDiffs(want[r.s:r.e-1], m0, int(m))
 				cs2 := cs
 				cs2.S, cs2.E, cs2.M = r.s, r.e, m
@@ -382,6 +392,27 @@ func c16Families(c *mc.Ctx) []c16Family {
 			tree = append(tree, strings.Repeat("a", i), strings.Repeat("a", i)+"b")
 		}
 		f = append(f, c16Family{name: "36-level directory tree a^k, a^k b", univ: sortS(tree), stems: []int{0}, maxSize: c16Whole})
+	}
+	// BYTE-LANE sweep (the analogue of C02's lane sweep): whole 8-byte words in which ONE lane L holds a byte
+	// of another class ('a' / 0x80 / 0xff) and ANOTHER lane D holds the difference ('X' / 'Y'), for every
+	// ordered pair of lanes (L, D): the keys fill their 8-byte word completely, so code that loads a word at a
+	// time (in halves, with shifts, with signed intermediates) sees a high byte in every lane while the first
+	// difference lies before it, in it or after it. All subsets of the 6 keys, behind stems of 0 and 8 bytes.
+	for L := 0; L < 8; L++ {
+		for D := 0; D < 8; D++ {
+			if D == L {
+				continue
+			}
+			var ks []string
+			for _, h := range []byte{'a', 0x80, 0xff} {
+				for _, d := range []byte{'X', 'Y'} {
+					k := []byte("aaaaaaaa")
+					k[L], k[D] = h, d
+					ks = append(ks, string(k))
+				}
+			}
+			f = append(f, c16Family{name: fmt.Sprintf("byte lanes: 8-byte keys, class byte in lane %d, difference in lane %d", L, D), univ: sortS(ks), stems: []int{0, 8}, maxSize: 0})
+		}
 	}
 	f = append(f, c16Family{"len≤3 over {00,'a'}", sortS(gen.Strings([]byte{0, 'a'}, 3)), []int{0, 8}, 0, false},
 		c16Family{"len≤3 over {00,'a',ff}, size≤4", sortS(gen.Strings([]byte{0, 'a', 0xff}, 3)), []int{0, 8}, 4, false})
